@@ -101,6 +101,7 @@ func (propC03) Gen(seed uint64, tier string, idx int) *Plan {
 		}
 		t += time.Duration(1+r.Pick(15)) * time.Second
 	}
+	stmtYields(r, p, 300)
 	p.Deadline = total + time.Minute
 	p.RunFor = total
 	p.Settle = time.Second
